@@ -50,6 +50,7 @@ class Unit:
         self.rules = []
         self.parts = []     # ('text', str) | ('extract', Extract)
         self.verus_flags = []
+        self.protect = []   # identifiers no rewrite rule may delete
         self.props = []
 
 def _parse_rule(rest, lineno):
@@ -106,6 +107,8 @@ def parse(path):
                 unit.rules.append(_parse_rule(d, lineno))
             elif d.startswith('verus-flag '):
                 unit.verus_flags.append(d.split()[1])
+            elif d.startswith('protect '):
+                unit.protect += d.split()[1:]
             elif d.startswith('contract-of '):
                 # //@contract-of UNIT FN [impl=`..`]: the verified contract of FN in another unit, as an assumed
                 # (external_body) stub here; the other unit must be run by the same check
@@ -130,7 +133,7 @@ def parse(path):
                 buf.append(open(inc).read())
             elif d.startswith('extract '):
                 flush_text()
-                m = re.match(r'extract\s+(fn|struct|enum|const|type)\s+(\w+)(.*)$', d)
+                m = re.match(r'extract\s+(fn|struct|enum|const|type|closure)\s+(\w+)(.*)$', d)
                 if not m:
                     raise ScanError('vspec line %d: bad extract' % lineno)
                 rest = m.group(3)
@@ -169,6 +172,9 @@ def parse(path):
                 m = re.match(r'loop\s+(\d+)\s+(invariant|body-start|body-end|before|after)$', a)
                 if a == 'entry':
                     sec = ('entry',)
+                elif a == 'each-arm-end':
+                    # the same ghost text at the end of every arm of the first top-level `match` of the body
+                    sec = ('eacharm',)
                 elif m:
                     sec = ('loop', int(m.group(1)), m.group(2))
                 else:
@@ -212,6 +218,7 @@ class Generated:
 def _anchor_id(sec):
     if sec[0] == 'contract': return 'contract'
     if sec[0] == 'entry': return 'entry'
+    if sec[0] == 'eacharm': return 'each-arm-end'
     if sec[0] == 'loop': return 'loop%d.%s' % (sec[1], sec[2])
     return '%s/%s/#%d' % (sec[1], sec[2], sec[3])
 
@@ -222,22 +229,34 @@ def build_item(repo, unit, ex, canary, log):
         src = open(path).read()
     except OSError as e:
         raise ScanError('lost anchor: cannot read %s: %s' % (ex.file, e))
-    item = rscan.locate(src, dict(kind=ex.kind, name=ex.name, impl=ex.impl, in_fn=ex.in_fn))
-    orig = src[item.start:item.end]
     where = '%s:%s' % (ex.file, ex.name)
-    text = rscan.strip_comments(orig)
+    if ex.kind == 'closure':
+        # R3 (lambda lifting): `let NAME = |PARAMS| { BODY };` inside fn `in_fn` becomes `fn NAME(PARAMS) -> _ { BODY }`;
+        # the unit's rules then write out the parameter / return types inference leaves implicit and turn captured
+        # variables into parameters
+        outer = rscan.locate(src, dict(kind='fn', name=ex.in_fn, impl=ex.impl))
+        a, b, params, body = rscan.find_let_closure(src, outer, ex.name)
+        item = rscan.Item('closure', ex.name, a, b, None, None, a)
+        orig = src[a:b]
+        text = rscan.strip_comments('fn %s(%s) -> _ %s' % (ex.name, params, body))
+        log.append(dict(rule='R3.closure', where=where, before='let %s = |%s| {..};' % (ex.name, ' '.join(params.split())), after='fn %s(..) -> _ {..}' % ex.name))
+    else:
+        item = rscan.locate(src, dict(kind=ex.kind, name=ex.name, impl=ex.impl, in_fn=ex.in_fn))
+        orig = src[item.start:item.end]
+        text = rscan.strip_comments(orig)
     text = _strip_attrs(text, log, where)
     urules = ex.unit_rules if getattr(ex, 'stub', False) else unit.rules_for(ex)
     rules = [(r[0], r[1], r[2], None) for r in R0_PATTERNS] + ex.rules + urules  # item-level rules take priority
-    text = rscan.apply_rules(text, rules, log, where)
+    prot = tuple(getattr(unit, 'protect', ()))
+    text = rscan.apply_rules(text, rules, log, where, protect=prot)
     if getattr(ex, 'orsplit', False):
         text = rscan.split_or_arms(text, log, where)
-        text = rscan.apply_rules(text, [(r[0], r[1], r[2], None) for r in rules], log, where)
+        text = rscan.apply_rules(text, [(r[0], r[1], r[2], {k: v for k, v in (r[3] or {}).items() if k != 'min'}) for r in rules], log, where, protect=prot)
     rewritten = text
     inserts = []   # (offset, order, id, text)
     seq = 0
     lost = []
-    if ex.kind == 'fn':
+    if ex.kind in ('fn', 'closure'):
         shape = rscan.FnShape(rewritten)
         toks = shape.toks
         if ex.ret:
@@ -252,6 +271,19 @@ def build_item(repo, unit, ex, canary, log):
                 off = shape.body_open
             elif sec[0] == 'entry':
                 off = shape.body_open + 1
+            elif sec[0] == 'eacharm':
+                try:
+                    ends = shape.match_arm_ends()
+                except ScanError as e:
+                    lost.append('%s: %s' % (where, e))
+                    continue
+                for chunk in _top_level_chunks(body):
+                    if not _GHOST_OK.match(chunk):
+                        raise ScanError('vspec: splice %s in %s is not ghost-only: %s' % (sid, where, chunk[:60]))
+                for n_arm, e_off in enumerate(ends):
+                    # `;` closes a trailing expression statement of the arm (all arms are unit-valued blocks)
+                    inserts.append((e_off, seq, '%s#%d' % (sid, n_arm), '\n; ' + body.rstrip('\n') + '\n')); seq += 1
+                continue
             elif sec[0] == 'loop':
                 if sec[1] >= len(shape.loops):
                     # the loop a ghost splice belongs to is gone: drop the splice (dropping ghost text can only
